@@ -109,3 +109,20 @@ package sql
 //@ iface (SQLObject).String(ctx, options)
 //@   modifies nothing
 //@   ensures typeis(recv, "*StringVal") ==> result1 == nil && result0 == "'" + sqlEsc(unbox(recv, "*StringVal").val) + "'"
+
+//@ func NewOrderBy [C13]
+//@   modifies nothing
+//@   ensures fresh(result) && result.col == col && result.direction == direction
+
+//@ func NewGenericLogicalOp
+//@   modifies nothing
+//@   ensures fresh(result) && result.fn == fn && len(result.clauses) == len(clauses)
+//@ func And [C13]
+//@   modifies nothing
+//@   ensures fresh(result) && result.fn == "and" && len(result.clauses) == len(clauses)
+//@ func Or [C13]
+//@   modifies nothing
+//@   ensures fresh(result) && result.fn == "or" && len(result.clauses) == len(clauses)
+//@ func Neq [C13]
+//@   modifies nothing
+//@   ensures fresh(result) && result.fn == "!=" && len(result.clauses) == 2 && result.clauses[0] == left && result.clauses[1] == right
